@@ -308,9 +308,53 @@ def tally_total(A):
 
 
 # ------------------------------------------------------------------------------------------ per-property monitors
+def _P(ncand, nseats, lines, withdrawn=(), undeclared=(), tie=None):
+    return dict(ncand=ncand, nseats=nseats, lines=lines, withdrawn=withdrawn, undeclared=undeclared, tie=tie)
+
+
+# regression corpus: profiles on which a seeded or genuine defect once showed only in a rare corner (every monitor that
+# drives run_counts sees them first, under the rule and options that matter)
+CORPUS = [
+    # fixed-point Meek with equal rankings: truncation leaves the total surplus a hair below zero
+    (_P(5, 2, [(7, [(3, 1, 2), (5, 4)]), (7, [(4, 5, 1), 2]), (7, [5, (2, 4)])]), 'meek', {'arithmetic': 'fixed', 'precision': 6}),
+    (_P(5, 2, [(7, [(3, 1, 2), (5, 4)]), (7, [(4, 5, 1), 2]), (7, [5, (2, 4)])]), 'warren', {'arithmetic': 'fixed', 'precision': 6}),
+    # QPQ: an opening exclusion with nobody elected, then a tie for the largest quotient
+    (_P(4, 2, [(4, [1]), (4, [2]), (3, [3]), (1, [4])]), 'qpq', {}),
+    # a whole-number quota met exactly by seats+1 candidates
+    (_P(4, 2, [(2, [1, 4]), (2, [2]), (2, [3])]), 'wigm', {'integer_quota': True, 'arithmetic': 'fixed', 'precision': 2}),
+    # a sure-loser batch that would leave too few candidates (wigm-prf-batch), and a tally exactly on the Scottish quota
+    (_P(5, 3, [(80, [1]), (10, [2]), (2, [3, 2]), (2, [4, 2])]), 'wigm-prf-batch', {}),
+    (_P(4, 3, [(6, [1, 2]), (7, [2, 3]), (4, [3]), (3, [4, 3])]), 'scotland', {}),
+    # Meek/Warren ending with the seats filled while two candidates are still hopeful
+    (_P(5, 2, [(7, [1]), (6, [2]), (2, [3]), (2, [4]), (1, [5])]), 'meek', {}),
+]
+
+
+def run_corpus(res, rules, per_count):
+    for p, rule, opts in CORPUS:
+        if rule not in rules:
+            continue
+        data = pdata(p)
+        try:
+            E = counted(data, rule, opts)
+        except Timeout:
+            continue
+        except (ElectionProfileError, UsageError):
+            continue
+        except Exception as e:      # noqa
+            res.evaluations += 1
+            per_count(getattr(e, 'droop_E', None), data, rule, opts, p, exc=e)
+            continue
+        res.evaluations += 1
+        res.sig((rule, action_sig(E)))
+        per_count(E, data, rule, opts, p)
+
+
 def run_counts(res, rules, tier, seed, per_count, with_withdrawn=True, with_undeclared=False, grid=True, max_n=None,
                time_budget=None, mutate=None):
     "drive per_count(E, data, rule, opts, p) over the domain"
+    if mutate is None:
+        run_corpus(res, rules, per_count)
     profs = small_profiles(tier, seed, with_withdrawn, with_undeclared, max_n)
     if mutate is not None:
         profs = [mutate(dict(p)) for p in profs]
@@ -441,6 +485,8 @@ def check_C09(res):
                time_budget=8 if res.tier == 'quick' else 120)
     run_extra(res, batch_profiles(res.tier, res.seed), ['wigm-prf-batch', 'cfer-batch', 'mpls', 'meek', 'wigm'], per,
               12 if res.tier == 'quick' else 400)
+    # QPQ on tie-rich profiles: an un-election is visible in the history only through the tie actions of the replayed round
+    run_extra(res, tie_rich_profiles(res.tier, res.seed), ['qpq'], per, 8 if res.tier == 'quick' else 200)
 
 
 def units(E):
@@ -788,7 +834,9 @@ def check_C07(res):
                     hv = {k: fr(c['vote']) for k, c in src['cstate'].items() if c['state'] == 'hopeful' or k == cid}
                     hvV = {k: c['vote'] for k, c in src['cstate'].items() if c['state'] == 'hopeful' or k == cid}
                     lowk = min(hv, key=lambda k: hv[k])
-                    bound = hvV[lowk] + src['surplus'] if (rule in MEEK_FAMILY and src.get('surplus') is not None) else hvV[lowk]
+                    # (truncation can leave the recorded total surplus a hair below zero: the window is never negative)
+                    sp = src.get('surplus') if rule in MEEK_FAMILY else None
+                    bound = hvV[lowk] + sp if (sp is not None and fr(sp) > 0) else hvV[lowk]
                     # compared with the arithmetic's own comparison (guarded values are equal within the tolerance)
                     if hvV[cid] > bound:
                         res.violation('excluded %s with %s while the lowest tally is %s (%s %s)' % (cid, hv[cid], min(hv.values()), rule, opts), wit(data, rule, opts))
@@ -850,7 +898,17 @@ def check_C08(res):
         if exc is not None:
             return
         N = Fraction(E.nBallots)
-        omega = fr(E.rule.omega)
+        # the CONFIGURED omega (1/10^omega as the options give it), not whatever the rule computed from it
+        o10 = E.options.getopt('omega')
+        omega = Fraction(1, 10 ** int(o10)) if o10 is not None else fr(E.rule.omega)
+        if rule == 'meek-prf':
+            logs = [x['msg'] for x in E.erecord['actions']]
+            for i_, a in enumerate(E.erecord['actions']):
+                if a['tag'] == 'defeat' and '< omega' in a['msg'] and a.get('surplus') is not None and not fr(a['surplus']) < omega:
+                    res.violation('exclusion reported as converged (%r) with surplus %s, omega %s (meek-prf)' % (a['msg'], fr(a['surplus']), omega),
+                                  wit(data, rule, opts))
+                if a['tag'] == 'defeat' and 'stable surplus' in a['msg'] and not any('Stable state detected' in m for m in logs[:i_]):
+                    res.violation('exclusion on a stalled surplus without the stable state being logged (meek-prf)', wit(data, rule, opts))
         for a in E.erecord['actions']:
             if 'cstate' not in a:
                 continue
@@ -902,7 +960,15 @@ def check_C08(res):
     run_counts(res, MEEK_FAMILY, res.tier, res.seed, per, with_withdrawn=False)
     run_extra(res, eq_profiles(res.tier, res.seed), ['meek', 'warren'], per, 12 if res.tier == 'quick' else 300,
               opts_list=({}, {'arithmetic': 'fixed', 'precision': 6}, {'arithmetic': 'guarded', 'precision': 6, 'guard': 0},
-                         {'arithmetic': 'fixed', 'precision': 4, 'omega': 2}))
+                         {'arithmetic': 'fixed', 'precision': 4, 'omega': 2}, {'arithmetic': 'fixed', 'precision': 3, 'omega': 5}))
+    # very large elections (multipliers of 10^5..10^7): the region where a keep factor's last digit can stall the surplus
+    rngb = random.Random(res.seed * 3 + 2)
+    big = []
+    for p0 in small_profiles('quick', res.seed + 5, False, False)[:300 if res.tier == 'quick' else 3000]:
+        q = dict(p0)
+        q['lines'] = [(m * rngb.choice([10 ** 5, 333333, 10 ** 6, 7654321]) + rngb.randint(0, 9), r) for m, r in p0['lines']]
+        big.append(q)
+    run_extra(res, big, ['meek-prf', 'meek'], per, 8 if res.tier == 'quick' else 200, opts_list=({},))
 
 
 def check_C10(res):
